@@ -14,8 +14,10 @@ Run(d, p) == LET e == [act |-> "run", d |-> d, p |-> p, rb |-> rng, ra |-> rng, 
 Tmp(kind) == last' = [act |-> kind, d |-> 0, p |-> 0, rb |-> rng, ra |-> rng, res |-> NoResult, exc |-> ""] /\ rng' = rng /\ seen' = seen
 Seed(v) == last' = [act |-> "seed", d |-> 0, p |-> 0, rb |-> rng, ra |-> v, res |-> NoResult, exc |-> ""] /\ rng' = v /\ seen' = seen
 Draw == last' = [act |-> "draw", d |-> 0, p |-> 0, rb |-> rng, ra |-> (rng + 1) % NR, res |-> NoResult, exc |-> ""] /\ rng' = (rng + 1) % NR /\ seen' = seen
+Gmm(v) == LET e == [act |-> "gmm", d |-> 8, p |-> v, rb |-> rng, ra |-> rng, res |-> 1000 + v, exc |-> ""] IN
+          last' = e /\ rng' = rng /\ seen' = Remember(seen, e)       \* the mixture fits use a private generator seeded with v
 Gauss == last' = [act |-> "gauss", d |-> 0, p |-> 0, rb |-> rng, ra |-> (rng + 2) % NR, res |-> NoResult, exc |-> ""] /\ rng' = (rng + 2) % NR /\ seen' = seen
-Next == (\E d \in 0..(ND - 1), p \in 0..(NP - 1) : Run(d, p)) \/ Tmp("tmpok") \/ Tmp("tmpraise") \/ (\E v \in 0..(NR - 1) : Seed(v)) \/ Draw \/ Gauss
+Next == (\E d \in 0..(ND - 1), p \in 0..(NP - 1) : Run(d, p)) \/ Tmp("tmpok") \/ Tmp("tmpraise") \/ (\E v \in 0..(NR - 1) : Seed(v)) \/ Draw \/ Gauss \/ (\E v \in 0..2 : Gmm(v))
 Spec == Init /\ [][Next]_vars
 Inv_Rng == C09_RngUntouched(last)
 Prop_Reproducible == [][C09_SameAsBefore(seen, last')]_vars
